@@ -222,7 +222,7 @@ type HashDRBG struct {
 	H             Hash
 	Mode          Mode
 	Level         Level
-	SeedLen       int // 55 (440 bits) for outlen <= 256, 111 (888 bits) otherwise: table 2
+	SeedLen       int // SeedLenTable: 55 (440 bits) or 111 (888 bits)
 	V, C          []byte
 	ReseedCounter uint64
 }
@@ -238,11 +238,31 @@ func HashDF(h Hash, input []byte, nBytes int) []byte {
 	return temp[:nBytes]
 }
 
-func hashSeedLen(h Hash) int {
-	if h.Size <= 32 {
-		return 55
-	}
-	return 111
+// SeedLenTable is seedlen of SP 800-90A Rev.1 section 10.1 table 2 in bytes (440 / 888 bits), written down per
+// hash function as the table lists them - it is decided by the output length (outlen <= 256 bits: 440), not by the
+// block length: SHA-512/224 and SHA-512/256 work on 1024-bit blocks and still use 440 bits. SM3 (outlen 256): GM/T 0105.
+// The model takes seedlen from this table only; SelfTest verifies every row with a known answer.
+var SeedLenTable = map[string]int{
+	"sha1":       55,
+	"sha224":     55,
+	"sha512/224": 55,
+	"sha256":     55,
+	"sha512/256": 55,
+	"sha384":     111,
+	"sha512":     111,
+	"sm3":        55,
+}
+
+// Hashes lists the hash functions the model knows (every row of SeedLenTable).
+func Hashes() []Hash {
+	return []Hash{SM3, SHA1, SHA224, SHA512_224, SHA256, SHA512_256, SHA384, SHA512}
+}
+
+var ErrUnknownHash = errors.New("ref/drbg: hash function without a seedlen in SP 800-90A table 2")
+
+func hashSeedLen(h Hash) (int, bool) {
+	n, ok := SeedLenTable[h.Name]
+	return n, ok
 }
 
 // hashMin returns the documented minimum entropy and nonce lengths.
@@ -262,7 +282,11 @@ func NewHash(h Hash, mode Mode, level Level, entropy, nonce, pers []byte) (*Hash
 	if len(nonce) < mn {
 		return nil, ErrNonceLength
 	}
-	d := &HashDRBG{H: h, Mode: mode, Level: level, SeedLen: hashSeedLen(h)}
+	sl, ok := hashSeedLen(h)
+	if !ok {
+		return nil, ErrUnknownHash
+	}
+	d := &HashDRBG{H: h, Mode: mode, Level: level, SeedLen: sl}
 	d.V = HashDF(h, cat(entropy, nonce, pers), d.SeedLen)
 	d.C = HashDF(h, cat([]byte{0}, d.V), d.SeedLen)
 	d.ReseedCounter = 1
@@ -806,6 +830,61 @@ func SelfTest() (map[string]int, error) {
 			return nil, err
 		}
 		seen[fmt.Sprintf("%s/%s/%v", v.mech, v.alg, mode)]++
+	}
+	// known answers computed with OpenSSL (vectors_openssl.go): the remaining rows of table 2
+	for i, v := range opensslKATs {
+		h, ok := hashByName(v.alg)
+		if !ok {
+			return nil, fmt.Errorf("ref/drbg: OpenSSL known answer %d: unknown hash %s", i, v.alg)
+		}
+		var g Generator
+		var err error
+		switch v.mech {
+		case "hash":
+			var d *HashDRBG
+			d, err = NewHash(h, NIST, LevelOne, unhex(v.entropy), unhex(v.nonce), unhex(v.pers))
+			if err == nil && (len(d.V) != SeedLenTable[h.Name] || len(d.C) != SeedLenTable[h.Name]) {
+				return nil, fmt.Errorf("ref/drbg: OpenSSL known answer %d (%s): V/C of %d/%d bytes, table 2 says %d", i, v.alg, len(d.V), len(d.C), SeedLenTable[h.Name])
+			}
+			g = d
+		case "hmac":
+			g, err = NewHMAC(h, NIST, LevelOne, unhex(v.entropy), unhex(v.nonce), unhex(v.pers))
+		default:
+			return nil, fmt.Errorf("ref/drbg: OpenSSL known answer %d: unknown mechanism %s", i, v.mech)
+		}
+		if err != nil {
+			return nil, fmt.Errorf("ref/drbg: OpenSSL known answer %d (%s %s): instantiate: %v", i, v.mech, v.alg, err)
+		}
+		if err := g.Reseed(unhex(v.entropyReseed), unhex(v.addlReseed)); err != nil {
+			return nil, fmt.Errorf("ref/drbg: OpenSSL known answer %d: reseed: %v", i, err)
+		}
+		want := unhex(v.out)
+		if _, err := g.Generate(len(want), unhex(v.addl1)); err != nil {
+			return nil, fmt.Errorf("ref/drbg: OpenSSL known answer %d: generate 1: %v", i, err)
+		}
+		out, err := g.Generate(len(want), unhex(v.addl2))
+		if err != nil {
+			return nil, fmt.Errorf("ref/drbg: OpenSSL known answer %d: generate 2: %v", i, err)
+		}
+		if !bytes.Equal(out, want) {
+			return nil, fmt.Errorf("ref/drbg: OpenSSL known answer %d (%s %s): returned bits %x want %x", i, v.mech, v.alg, out, want)
+		}
+		seen[fmt.Sprintf("%s/%s/%v", v.mech, v.alg, NIST)]++
+	}
+	// every row of table 2 (and SM3) must have been verified as Hash_DRBG and as HMAC_DRBG
+	if len(Hashes()) != len(SeedLenTable) {
+		return nil, errors.New("ref/drbg: Hashes() and SeedLenTable disagree")
+	}
+	for _, n := range []string{"sha1.New", "sha256.New224", "sha512.New512_224", "sha256.New", "sha512.New512_256", "sha512.New384", "sha512.New"} {
+		for _, m := range []string{"hash", "hmac"} {
+			if seen[m+"/"+n+"/nist"] == 0 {
+				return nil, fmt.Errorf("ref/drbg: no known answer for %s over %s", m, n)
+			}
+		}
+		h, _ := hashByName(n)
+		if _, ok := SeedLenTable[h.Name]; !ok {
+			return nil, fmt.Errorf("ref/drbg: %s has no row in SeedLenTable", h.Name)
+		}
 	}
 	// every class the brief names must have been seen
 	for _, k := range []string{"hash/sha256.New/nist", "hash/sm3.New/gm", "hmac/sha256.New/nist", "ctr/aes.NewCipher/nist", "ctr/sm4.NewCipher/gm", "ctr/sm4.NewCipher/nist"} {
